@@ -31,3 +31,22 @@ claim('C20',
       'stubs returning a benign absorbing value or raising one of 2 (quick) / 4 (thorough) exception kinds; os.environ is a mapping stub '
       '(counterexamples are replayed against the real os.environ of a fresh process); collaborators are assumed not to modify the '
       'environment themselves.', 'DESIGN.md 4/C20')
+claim('C04',
+      'PARTIAL. spherematch is executed symbolically from the candidate loop onwards with the separation of every pair a solver '
+      'variable (arbitrary non-negative real matrix D, arbitrary match length L > 0): for every D and L within the size bound the '
+      'returned list contains each pair with D < L exactly once and none with D >= L, reports D as the distance, is sorted, and for '
+      'maxmatch = 1, 2 satisfies the greedy characterisation of the statement. The completeness of the spatial hash itself (chunk '
+      'geometry at the RA seam, chunk edges, poles) is NOT claimed: it needs trigonometric inequalities that no SMT theory decides.',
+      'class chunks is replaced by a trivially complete hash and gcirc by 3600*D[i][k]; a defect confined to chunks.__init__/assign/'
+      'getbounds/get is not detected by this check. Bounds: 2x1, 2x2 (+3x2 for maxmatch=1) quick; up to 3x2 and 2x3 thorough; maxmatch 0..2. '
+      'Ties in argsort are taken in stable order.', 'DESIGN.md 4/C04')
+claim('C05',
+      'PARTIAL. (1) The per-chunk friends-of-friends class `groups` is executed on a symbolic symmetric distance matrix (n <= 5 quick, '
+      '6 thorough): for every matrix and linking length the resulting partition equals the connected components of the link graph, '
+      'numbered by first member, with consistent multiplicity / first / next lists. (2) spheregroup as a whole (cross-chunk merge with '
+      'path compression, renumbering, list rebuild) is executed with the chunk assignment replaced by an ARBITRARY symbolic '
+      'point-in-chunk relation subject to the margin invariant (every point in some chunk, every linked pair shares a chunk), so all '
+      'multi-chunk overlap patterns of <= 3 (4) points in <= 2 (3) chunks are covered. The chunk geometry that is supposed to establish '
+      'that invariant is not claimed.',
+      'gcirc -> symbolic distance matrix; chunks.__init__/assign -> symbolic membership under the stated invariant (assumed, not shown); '
+      'numpy.deg2rad -> identity. A defect confined to the chunk geometry is not detected.', 'DESIGN.md 4/C05')
